@@ -42,6 +42,13 @@ def stages(tier, rng, only=None):
     out.append(ac.stage("reuse_other_dataset", PID, lambda: ac.reuse_other_cases(
         g[::5] + [ac.random_dataset(rng, 6, 5, nmin=2) for _ in range(n_rand // 2)],
         algorun.ALL_CONFIGS, SCHEMES + NONDYADIC[:1], rng, flags=(1, 0), every=COSTLY), _nt))
+    out.append(ac.stage("reuse_other_scheme", PID, lambda: ac.reuse_scheme_cases(
+        g[::4] + [ac.random_dataset(rng, 6, 5, nmin=2) for _ in range(n_rand // 2)],
+        algorun.ALL_CONFIGS, SCHEMES, rng, flags=(1, 0), every=COSTLY), _nt))
+    out.append(ac.stage("mixed_magnitudes", PID, lambda: ac.cases(
+        [ac.random_dataset(rng, 6, 6, nmin=3) for _ in range(n_rand // 2)]
+        + [ac.cyclic_dataset(rng, 3, 6, incomplete=k % 2 == 1) for k in range(n_rand // 2)], algorun.ALL_CONFIGS,
+        ac.MIXEDMAG, flags=(0, 1), every={k: 4 * v for k, v in COSTLY.items()}), _nt))
     out.append(ac.stage("tiny_penalties", PID, lambda: ac.cases(
         [ac.random_dataset(rng, 6, 6, nmin=3) for _ in range(n_rand)] + g[::7], algorun.ALL_CONFIGS, ac.TINY,
         flags=(0, 1), every={k: 4 * v for k, v in COSTLY.items()}), _nt))
